@@ -37,6 +37,7 @@ def run(ctx):
     forward_offsets(ctx, fb)
     delegation(ctx, fb)
     axis_rank(ctx, fb)
+    reduce_empty_axes(ctx, fb)
 
 
 def summarize(fb, f, self_ty, inner, depth=2):
@@ -518,3 +519,55 @@ def axis_rank(ctx, fb):
                  'inference and execution both resolve the axis against %s' % ('the rank' if si == {'rank'} else 'rank + 1 (insertion position)') if ok else
                  'shape inference of %s resolves its axis against %s but execution (%s) against %s: a negative axis selects a different dimension in the two, so the inferred shape contradicts the executed one' % (op, sorted(si), ', '.join(e.split('::')[-1] for e in execs), sorted(se)), fi[0][1])
     ctx.floor(R, 'inference / execution pairs compared', n, 4)
+
+
+# ---------------------------------------------------------------------------------------------------------------
+def _reads_field(f, name):
+    import json as _j
+    for b in f.bbs:
+        if b.get('c'):
+            continue
+        if ("'f', " in str(b['s']) or '"f"' in str(b['s'])) and ("'%s'" % name) in str(b['s']):
+            return True
+    return False
+
+
+def reduce_empty_axes(ctx, fb):
+    """Execution of the reduction operators treats an empty `axes` like a missing one (reduce every dimension) unless
+    noop_with_empty_axes is set, in which case the input is returned unchanged.  Inference has to make the same two
+    distinctions: (flag) every operator whose run() reads self.noop_with_empty_axes also reads it in infer_shapes();
+    (empty) ReductionOp::infer_shapes tests the resolved axes list for emptiness."""
+    R = 'C10.reduce-empty-axes'
+    n = 0
+    for f in fb.fns(crate='rten'):
+        m = re.search(r'^<rten::ops::reduce::(\w+) as rten::operator::Operator>::run$', f.path)
+        if not m or not f.has_mir():
+            continue
+        if not any(_reads_field(fb.fn(p), 'noop_with_empty_axes') for p in fb.with_closures(f.path) if fb.fn(p) is not None and fb.fn(p).has_mir()):
+            continue
+        op = m.group(1)
+        inf = [g for g in fb.fns(crate='rten') if g.has_mir() and re.search(r'^<rten::ops::reduce::%s as rten_shape_inference::infer_shapes::InferShapes>::infer_shapes$' % op, g.path)]
+        n += 1
+        ok = bool(inf) and any(_reads_field(fb.fn(p), 'noop_with_empty_axes') for p in fb.with_closures(inf[0].path) if fb.fn(p) is not None and fb.fn(p).has_mir())
+        ctx.inst(R, 'flag-read-by-inference:' + op, ok, 'run() and infer_shapes() both read noop_with_empty_axes' if ok else
+                 '%s::run returns its input unchanged when noop_with_empty_axes is set and axes is empty or missing, but infer_shapes never reads the flag: the inferred shape has the dimensions reduced that execution keeps' % op,
+                 inf[0].loc() if inf else f.loc())
+    ctx.floor(R, 'reduction operators whose run() reads noop_with_empty_axes', n, 8)
+    g = [x for x in fb.fns(crate='rten_shape_inference') if x.has_mir() and re.search(r'ReductionOp<.*> as rten_shape_inference::infer_shapes::InferShapes>::infer_shapes$', x.path)]
+    if ctx.anchor(R, 'ReductionOp::infer_shapes', bool(g)):
+        calls = [c for p in fb.with_closures(g[0].path) for c in (fb.fn(p).calls() if fb.fn(p) is not None and fb.fn(p).has_mir() else [])]
+        ok = any(re.search(r'SmallVec::<.*>::is_empty$|SmallVec<.*>::is_empty$', c.callee or '') for c in calls)
+        if not ok:
+            # the `len() == 0` spelling of the same test
+            for p_ in fb.with_closures(g[0].path):
+                h = fb.fn(p_)
+                if h is None or not h.has_mir():
+                    continue
+                for b in h.bbs:
+                    for st in ([] if b.get('c') else b['s']):
+                        if st[0] == '=' and st[2][0] == 'bin' and st[2][1] in ('Eq', 'Ne') and any(x[0] == 'k' and str(x[1]).startswith('0_') for x in (st[2][2], st[2][3])):
+                            other = st[2][3] if st[2][2][0] == 'k' else st[2][2]
+                            if any(o[0] == 'call' and re.search(r'SmallVec::<.*>::len$|SmallVec<.*>::len$', o[1] or '') for o in h.origins(other)):
+                                ok = True
+        ctx.inst(R, 'empty-axes-tested', ok, 'the resolved axes list is tested for emptiness (empty = reduce every dimension, as in execution)' if ok else
+                 'ReductionOp::infer_shapes never tests the axes list for emptiness: an empty list reduces nothing in inference but every dimension in execution (ReduceSum([2,3], axes=[]) is inferred as [2,3] and produces a scalar)', g[0].loc())
